@@ -211,3 +211,61 @@ Theorem c03_rtmp_second_command_unlisted : forall fsh cf h s pb n x,
   forall s' g, get_group (cs_base cs1) s' = Some g -> stat_pub g <> Some n /\ ~ In n (stat_subs g).
 Proof. exact rtmp_cmd_unlisted. Qed.
 Print Assumptions c03_rtmp_second_command_unlisted.
+(* ===================================================================================================== *)
+(* Extension E3: ticks with the liveness sweep, removal of groups, byte counters (Group/GroupServerTick.v).
+   Keep this block at the END of the file. *)
+From Lal Require Import Group.GroupServerTick Group.GroupServerTickProofs.
+
+(* Every history of the server WITH its one-second tick (removal of inactive groups, Group.Tick, the
+   liveness sweep on tick counts that are multiples of 120) and with byte-counter events is a history
+   of the admission / relay machine: same state, same notifications.  (The disposal of an idle network
+   session is what kick_session does to it, the disposal of an idle relay session is followed by the
+   Del its own goroutine reports.) *)
+Theorem c03_srv_refines : forall cf h,
+  exists bh, run fixed_tree cf init_state bh =
+             (t_st (fst (trun fixed_tree cf tinit h)), snd (trun fixed_tree cf tinit h)).
+Proof. exact trun_is_run. Qed.
+Print Assumptions c03_srv_refines.
+
+(* ... hence the theorems above hold over all those histories as well; the two state-wide ones: *)
+Theorem c03_srv_single_input : forall cf h s g,
+  get_group (t_st (fst (trun fixed_tree cf tinit h))) s = Some g -> (occupied g <= 1)%nat.
+Proof. exact srv_single_input. Qed.
+Print Assumptions c03_srv_single_input.
+
+Theorem c03_srv_notifications : forall cf h n,
+  word (snd (trun fixed_tree cf tinit h)) (WConn n) = conn_word (vsess (t_st (fst (trun fixed_tree cf tinit h))) n).
+Proof. exact srv_notifications. Qed.
+Print Assumptions c03_srv_notifications.
+
+(* Ticks never disturb an accepted publisher: after any history, a tick with any count - whatever it
+   removes, whatever relay pulls and pushes it starts or stops, whichever sessions (of this or of other
+   streams, the publisher itself included) its sweep disposes - leaves the publisher the accepted input
+   of its stream, with its pipeline and its Group object.  (An idle publisher is only disconnected; it
+   leaves the slot when its shell reports the end, c16_idle_input_dropped_history.) *)
+Theorem c03_tick_noninterference : forall cf h c s g,
+  let ts := fst (trun fixed_tree cf tinit h) in
+  get_group (t_st ts) s = Some g -> has_pub g = true ->
+  keeps s g (t_st (fst (fst (tstep fixed_tree cf ts (TEv (ETick c)))))).
+Proof. intros cf h c s g ts. exact (tick_keeps_publisher cf ts _ c s g (trun_inv_s cf h)). Qed.
+Print Assumptions c03_tick_noninterference.
+
+(* ... and byte-counter events do not touch the server at all *)
+Theorem c03_bytes_noninterference : forall cf ts n k s i,
+  t_st (fst (fst (tstep fixed_tree cf ts (TBytes n k)))) = t_st ts /\
+  t_st (fst (fst (tstep fixed_tree cf ts (TAttBytes s i k)))) = t_st ts.
+Proof. intros. split; [apply bytes_keep_state|apply att_bytes_keep_state]. Qed.
+Print Assumptions c03_bytes_noninterference.
+
+(* non-vacuity: two streams; the publisher of stream 1 is active, the one of stream 2 and the subscriber
+   of stream 1 are idle: the sweep at tick 240 disconnects sessions 2 and 3 and nobody else, the accepted
+   inputs stay in their slots *)
+Example c03_srv_nonvacuous :
+  let h := [TEv (ERtmpPub 1 1 false); TEv (ERtmpPub 2 2 false); TEv (EFlvSub 1 3 false); TEv (ETick 120);
+            TBytes 1 16; TEv (ETick 239); TEv (ETick 240)] in
+  let '(ts, log) := trun fixed_tree (mk_config false 0) tinit h in
+  closed_waiting (t_st ts) = [2; 3] /\
+  (exists g, get_group (t_st ts) 1 = Some g /\ g_rtmp g = Some 1) /\
+  (exists g, get_group (t_st ts) 2 = Some g /\ g_rtmp g = Some 2) /\
+  map n_kind log = [NPubStart; NPubStart; NSubStart].
+Proof. vm_compute. split; [reflexivity|]. split; [eexists; split; reflexivity|]. split; [eexists; split; reflexivity|reflexivity]. Qed.
